@@ -493,7 +493,64 @@ def unit_schema(U):
     IM_.prove_plain_schema(U, "C10", ['features', 'relations', 'autoincrements', 'duplicates', 'meta', 'directives'])
 
 
-UNITS = [("schema", unit_schema), ("bounded.delete_then_merge", unit_bounded_delete_then_merge), ("delete", unit_delete), ("add_relation", unit_add_relation), ("update", unit_update), ("levels", unit_levels)]
+def unit_writers_no_commit(U):
+    """'update adds or merges ...; a failed operation leaves the modelled content': the statement-level writers of the
+    importer (_DBCreator._insert / _replace, used by both importers and by the GTF inference pass) issue their one statement
+    and NEVER commit - the only commit of an import or update is _finalize's - whatever the importer object has done before
+    (its integer bookkeeping is an arbitrary non-negative number: behaviour that starts at the n-th row is on some path)"""
+    import gffutils.bins as B_
+    from contracts.common import bins_contract as _bc
+    for name, fn in (("_insert", C._DBCreator._insert), ("_replace", C._DBCreator._replace)):
+        it = _it()
+        it.contracts[B_.bins] = _bc
+
+        def run(ctx, fn=fn):
+            conn = ghostdb.GhostConn()
+            cr = IM.blank_creator(C._GFFDBCreator, conn)
+            f = sfeat("f")
+            it.call(fn, [cr, f, conn.cursor()], {})
+
+        def replay(m):
+            import tempfile, os, shutil
+            d = tempfile.mkdtemp()
+            try:
+                mk = lambda i: F.Feature(seqid="c", source="s", featuretype="exon", start=10 * i + 1, end=10 * i + 5, strand="+", attributes={"ID": ["e%d" % i]})
+
+                def src(n, stop):
+                    for i in range(1, n):
+                        if i == stop:
+                            raise RuntimeError("source fault")
+                        yield mk(i)
+                out = {}
+                for stop in (3, 1001, 1500, 2600):
+                    path = os.path.join(d, "x%d.db" % stop)
+                    gffutils.create_db([mk(0)], path).conn.close()
+                    db = gffutils.FeatureDB(path)
+                    try:
+                        db.update(src(3000, stop))
+                    except RuntimeError:
+                        pass
+                    db.conn.close()
+                    import sqlite3
+                    c = sqlite3.connect(path)
+                    out[stop] = c.execute("SELECT COUNT(*) FROM features").fetchone()[0]
+                    c.close()
+                return {"inputs": "file database with 1 feature; update() from a source that raises after 2 / 1000 / 1499 / 2599 features; reopened", "expected": {k: 1 for k in out}, "observed": out,
+                        "violates": any(v != 1 for v in out.values())}
+            finally:
+                shutil.rmtree(d, ignore_errors=True)
+        for p in U.explore(run, it):
+            if p.kind != "return":
+                U.prove("C10.writers.no_commit[%s].noraise#p%d" % (name, p.index), "writing a row raises nothing (got %r)" % (p.value,), p.pc, z3.BoolVal(False), {}, replay=replay)
+                continue
+            effs = IM.classify(p.ctx.effects)
+            commits = [e for e in effs if e.kind == "commit"]
+            writes = [e for e in effs if e.kind in ("insert", "update", "delete", "replace", "script", "ddl")]
+            U.prove("C10.writers.no_commit[%s]#p%d" % (name, p.index), "the writer issues exactly one statement (on features) and does not commit, whatever the importer did before", p.pc,
+                    z3.BoolVal(not commits and len(writes) == 1 and writes[0].table == "features"), {}, replay=replay)
+
+
+UNITS = [("writers.no_commit", unit_writers_no_commit), ("schema", unit_schema), ("bounded.delete_then_merge", unit_bounded_delete_then_merge), ("delete", unit_delete), ("add_relation", unit_add_relation), ("update", unit_update), ("levels", unit_levels)]
 try:
     from standins import C10 as _S
     UNITS = UNITS + list(_S.UNITS)
